@@ -375,6 +375,11 @@ func genC09(r *RNG, tier string) []Case {
 			// one byte of count (256 and more)
 			t := h.tables[0]
 			target := r.Pick(250, 251, 252, 255, 256, 257, 264, 300)
+			if i == 3 {
+				target = 1100 // beyond InnoDB's 1017-column limit (MyISAM / MEMORY tables go up to 4096)
+			} else if i == 43 {
+				target = 4096
+			}
 			for len(t.cols) < target {
 				c := t.cols[r.Intn(len(t.cols))]
 				c.name = fmt.Sprintf("w%d", len(t.cols))
